@@ -2,6 +2,7 @@ package parser
 
 import (
 	"fmt"
+	"sort"
 	"strconv"
 	"strings"
 
@@ -674,10 +675,16 @@ func (p *parser) appendErrorForToken(message string, token *lexer.Token) {
 
 // validateScope ensures all variables in scope have been used.
 func (p *parser) validateScope() {
+	var unused []*Var
 	for _, v := range p.scope.vars {
 		if !v.isUsed {
-			p.appendErrorForToken(fmt.Sprintf("%q declared but not used", v.Name), v.token)
+			unused = append(unused, v)
 		}
+	}
+	// report in source order, not in Go's map iteration order
+	sort.Slice(unused, func(i, j int) bool { return unused[i].token.Offset < unused[j].token.Offset })
+	for _, v := range unused {
+		p.appendErrorForToken(fmt.Sprintf("%q declared but not used", v.Name), v.token)
 	}
 }
 
